@@ -343,6 +343,10 @@ func ctorName(sortName string) string {
 }
 
 func (s *SMT) fieldSel(sortName, field string, i int) string {
+	if field == "_" {
+		// blank fields may repeat within one struct
+		return smtName(fmt.Sprintf("%s._%d", strings.Trim(sortName, "|"), i))
+	}
 	return smtName(fmt.Sprintf("%s.%s", strings.Trim(sortName, "|"), field))
 }
 
